@@ -567,6 +567,10 @@ def P_select(sa):
         node = P_expr(ge, True)
         if sa.get("group_by_aliased_item") and gi == 0 and sa["items"][0]["alias"]:
             node = ["as", node, sa["items"][0]["alias"]]  # the very term object that stands, aliased, in the select list
+        elif not sa.get("shadow") and zlib.crc32(json.dumps([ge, "g"]).encode()) % 2 == 0:
+            named = [it["alias"] for it in sa["items"] if it["alias"] and it["e"] == ge]
+            if named:
+                node = ["py", named[0]]  # the grouped select item named by its alias as a string: groupby("al1")
         steps.append(["groupby", [node]])
     if sa["having"] is not None:
         steps.append(["having", [P_expr(sa["having"], True)]])
